@@ -17,6 +17,9 @@ func checkC06(r *Run) {
 	ruleA15a(r, p, "A15a", "", "TriggerLevelWriter")
 	rulePoolCount(r, p)
 	ruleBufferPoolClean(r, p, []string{""})
+	if dw := p.Method("diode", "Writer", "Write"); dw != nil {
+		ruleCopyBeforePublish(r, p, dw) // a writer in front of a diode recycles its buffer after Write returns (C10's rule)
+	}
 	r.Floor("A3", 8)
 	r.Floor("A13a", 20)
 	r.Floor("A13b", 20)
